@@ -530,6 +530,83 @@ class Generator:
         self.m.note("collision_setup")
         return {"op": "mutate", "t": pt.id, "cols": cols}
 
+    def g_disjoint_join_scenario(self):
+        """two tables whose VISIBLE names are disjoint (the rest hidden by select), then a join on an
+        expression equality: hidden/visible and hidden/hidden name collisions without any suffixing"""
+        m = self.m
+        rng = self.rng
+        T = m.model.toks
+        l = self.pick_table(lambda p: not p.m.grouping and len(p.m.visible) >= 4)
+        if l is None:
+            return None
+
+        def ok(p):
+            return p.id != l.id and not p.m.grouping and len(p.m.visible) >= 4 and not (p.m.origins & l.m.origins) and not (set(p.m.scope) & set(l.m.scope)) and set(p.real) & set(l.real)
+
+        r = self.pick_table(ok)
+        if r is None:
+            return self.g_alias()
+        common = [n for n in l.m.names() if n in r.m.names()]
+        rng.shuffle(common)
+        keep_l = set(common[: len(common) // 2]) | {n for n in l.m.names() if n not in r.m.names()}
+        keep_r = set(common[len(common) // 2 :]) | {n for n in r.m.names() if n not in l.m.names()}
+        lt = [t for n, t in l.m.visible if n in keep_l]
+        rt = [t for n, t in r.m.visible if n in keep_r]
+        if len(lt) < 1 or len(rt) < 1:
+            return None
+        lcols = [self.refarg(l, t, allow_str=True) for t in lt]
+        rcols = [self.refarg(r, t, allow_str=True) for t in rt]
+        if any(c is None for c in lcols + rcols):
+            return None
+        state = {}
+
+        def sel_right(i):
+            state["l"] = f"t{i - 1}"
+            if state["l"] not in m.tables or r.id not in m.tables:
+                self.plan.clear()
+                return None
+            return {"op": "select", "t": r.id, "cols": rcols}
+
+        def do_join(i):
+            lt_, rt_ = m.tables.get(state.get("l")), m.tables.get(f"t{i - 1}")
+            if lt_ is None or rt_ is None:
+                return None
+            li = [t for t in self.addressable(lt_, kinds=("int",), decodable=True, visible_only=True) if len(T[t].offs) == 1 and T[t].T]
+            ri = [t for t in self.addressable(rt_, kinds=("int",), decodable=True, visible_only=True) if len(T[t].offs) == 1 and T[t].T]
+            pairs = [(a, b) for a in li for b in ri if T[a].mod == T[b].mod]
+            m.note("disjoint_join_scenario")
+            if not pairs:
+                return {"op": "join", "l": lt_.id, "r": rt_.id, "on": [], "how": "inner", "cross": bool(rng.random() < 0.5)}
+            a, b = rng.choice(pairs)
+            na, nb = lt_.m.name_of_tok(a), rt_.m.name_of_tok(b)
+            da = W.v(T[a].T, T[a].c, 0) + T[a].offs[0] * W.OFF
+            db = W.v(T[b].T, T[b].c, 0) + T[b].offs[0] * W.OFF
+            return {"op": "join", "l": lt_.id, "r": rt_.id, "on": [{"p": "eqx", "a": {"o": na}, "b": {"ro": nb}, "da": da, "db": db}], "how": rng.choice(["inner", "left", "full"])}
+
+        def sel_left(i):
+            return {"op": "select", "t": l.id, "cols": lcols} if l.id in m.tables else None
+
+        def ref_right(i):
+            # (i - 1 is the select of the left table)
+            state["l"] = f"t{i - 1}"
+            rid_tok = next((t for t in (r.m.rowid or ()) if r.m.name_of_tok(t)), None)
+            if rid_tok is None or r.id not in m.tables:
+                return None
+            return {"op": "ref", "t": r.id, "how": "item", "name": r.m.name_of_tok(rid_tok)}
+
+        def sel_right2(i):
+            if state.get("l") not in m.tables or r.id not in m.tables:
+                self.plan.clear()
+                return None
+            return {"op": "select", "t": r.id, "cols": rcols}
+
+        # references to the row-identifying columns are taken first: they stay usable when hidden
+        lid_tok = next((t for t in (l.m.rowid or ()) if l.m.name_of_tok(t)), None)
+        self.plan = [sel_left, ref_right, sel_right2, do_join]
+        if lid_tok is None:
+            return self.plan.pop(0)(None)
+        return {"op": "ref", "t": l.id, "how": "item", "name": l.m.name_of_tok(lid_tok)}
+
     def g_mutate_w(self):
         st = self.g_mutate(window=True)
         return st
